@@ -5,6 +5,8 @@ From Frugal.gen Require Import Params.
 From Frugal.proofs Require Import GenDecParams DecodeSafe.
 From Frugal.proofs Require Import DecodeSound DecodeCost.
 From Frugal.props Require Import Examples.
+From Frugal Require Import DisciplineChecks.
+From Frugal.proofs Require Import GenDepthArgs.
 Import ListNotations.
 
 (* for EVERY byte string: never a Go panic (index / slice out of range, division by zero) and the
@@ -96,3 +98,8 @@ Proof. split; vm_compute; reflexivity. Qed.
    for what the translator read from the sources of this run *)
 Theorem C05_side_conditions : dec_params_ok = true.
 Proof. exact dec_params_ok_holds. Qed.
+
+(* structural facts about the Go source which the hand-written model builds in (DisciplineChecks.v),
+   read from the source by the translator and re-proved on every run *)
+Theorem C05_model_assumptions : depth_args_ok = true.
+Proof. exact depth_args_ok_holds. Qed.
